@@ -430,6 +430,55 @@ def seed_ent(rng, kind, forms="any", xflags=False):
     return dict({"name": c20.codes(nm) if x != "U" else [], "x": x}, **v)
 
 
+def text_value(rng, name):
+    """a fitting value in a text form (input weighting only)"""
+    c20 = _c20()
+    blank = {"n": [], "c": [], "sty": ""}
+    for _ in range(8):
+        v = dict(c20.fitting_value(rng, name))
+        if v["f"] in ("num", "num2", "txt", "rle"):
+            if v["f"] == "num":
+                v["sty"] = "dec"
+            if v["f"] in ("txt", "rle") and not v["c"]:
+                continue
+            return v
+    return dict(blank, f="txt", c=c20.codes("abc"))
+
+
+def valid_list(rng, kind, k):
+    """entries for different properties, each with a value that suits it; point properties (one or two coordinates) early in the list"""
+    c20 = _c20()
+    names = sorted(c20.SETNAMES[kind])
+    pts = [n for n in names if c20.HINT.get(n) == "pt"]
+    pick = rng.sample(names, min(k, len(names)))
+    if pts and rng.random() < 0.7:
+        pick = [rng.choice(pts)] + [n for n in pick if c20.HINT.get(n) != "pt"]
+        if len(pick) > 2 and rng.random() < 0.5:
+            pick[0], pick[1] = pick[1], pick[0]
+    return [dict({"name": c20.codes(n), "x": ""}, **text_value(rng, n)) for n in pick]
+
+
+def mixed_args(rng, kind, k):
+    """assignments and bare names over a few properties, in every order, names repeated"""
+    c20 = _c20()
+    names = sorted(c20.SETNAMES[kind])
+    texty = [n for n in names if c20.HINT.get(n) in ("str", "col", "chr")] or names
+    few = [rng.choice(texty) for _ in range(2)] + [rng.choice(names)]
+    blank = {"n": [], "c": [], "sty": ""}
+    out = []
+    for _ in range(k):
+        n = rng.choice(few)
+        if rng.random() < 0.45:
+            out.append(dict({"name": c20.codes(n), "x": "", "f": "none"}, **blank))
+        else:
+            v = text_value(rng, n)
+            if v["f"] in ("num", "num2"):
+                t = v["n"][0] * 65536 + v["n"][1]
+                v = dict(blank, f="txt", c=c20.codes(str(t // 2) if t % 2 == 0 else "%.1f" % (t / 2.0)))
+            out.append(dict({"name": c20.codes(n), "x": ""}, **v))
+    return out
+
+
 def typed_for(rng, n):
     """a type letter whose range holds the doubled value n = (hi, lo) (input shaping: the harness casts)"""
     t = n[0] * 65536 + n[1]
@@ -492,6 +541,8 @@ def gen_histories(ck, n, steps):
                 k = rng.choice([20, 40]) if many and src != "va" else rng.choice([0, 1, 1, 2, 2, 3, 5, 12 if src == "va" else 6])
                 if src == "conv":
                     ents = [seed_ent(rng, kind, "typed" if rng.random() < 0.7 else "text") for _ in range(k)]
+                elif rng.random() < 0.5:
+                    ents = mixed_args(rng, kind, rng.choice([2, 2, 3, 4, 6]))
                 else:
                     ents = [seed_ent(rng, kind, "text") for _ in range(k)]
                 beh.append({"a": "args", "arg": {"o": o, "src": src, "ents": ents}})
@@ -499,6 +550,8 @@ def gen_histories(ck, n, steps):
                 k = rng.choice([20, 40]) if many else rng.choice([0, 1, 1, 2, 2, 3, 5, 8])
                 ents = [seed_ent(rng, kind, "text" if rng.random() < 0.75 else "typed", xflags=True) for _ in range(k)]
                 ents = [e for e in ents if not (e["f"] in ("txt", "rle", "s", "sr") and not e["c"])]     # (an empty text is no node value)
+                if not many and rng.random() < 0.4:
+                    ents = valid_list(rng, kind, rng.choice([2, 3, 4, 6]))
                 beh.append({"a": "nodes", "arg": {"o": o, "match": rng.choice(MATCHES), "log": rng.choice([0, 1]), "ents": ents}})
             elif r < 0.74:
                 nm = seed_name(rng, kind, 0.02)
@@ -681,6 +734,8 @@ def gen_histories_x(ck, n, steps):
                     if rng.random() < 0.06:
                         e = dict(e, name=[], x="U")
                     ents.append(e)
+                if rng.random() < 0.5:
+                    ents = valid_list(rng, kind, rng.choice([2, 3, 4, 6]))
                 beh.append({"a": "nset", "arg": {"o": o, "proc": rng.choice([0, 1]), "ents": ents}})
         hist.append(beh)
     return hist
